@@ -749,6 +749,14 @@ func (e *Env) call(n *Node, hint *Sym) *Sym {
 			return &Sym{L: []*Term{v.L[0]}}
 		}
 		return scalar(types.Typ[types.Int], v.L[1])
+	case "wide":
+		v := e.eval(n.Args[0], i64Hint())
+		t := v.term()
+		if !t.isBV() {
+			panic("wide() of non-integer")
+		}
+		out := &Sym{L: []*Term{bvResize(t, 128, isSigned(v))}}
+		return out
 	case "asptr":
 		// asptr(x, "pkg.Type"): view the interface/ref value x as a *pkg.Type
 		v := e.eval(n.Args[0], nil)
